@@ -12,7 +12,7 @@ fn s(t: &str) -> String {
     t.to_string()
 }
 fn holder(code: String, codes: Vec<Code>, maybe: Option<Flag>, qty: String, tag: String) -> Holder {
-    Holder { code: Code { value: code }, codes, maybe, qty: Quantity { value: qty }, short: None, tag: Code { value: tag } }
+    Holder { code: Code { value: code }, codes, maybe, qty: Quantity { value: qty }, short: None, region: None, tag: Code { value: tag } }
 }
 fn valid_holder() -> Holder {
     holder(s("ab"), Vec::new(), None, s("5"), s("xy"))
